@@ -34,6 +34,7 @@ func vhCopy(m []any) []any {
 
 // p: n, slack
 func VH_C08_Index(p []int) {
+	vhPreMode = 2
 	pre := vhArbitraryStack(p[0], p[1], true, vhOptMask, 2, 2)
 	snap := vhSnapCfg(pre.cfg)
 	i := nondetInt()
@@ -58,6 +59,7 @@ func VH_C08_Index(p []int) {
 
 // p: n, slack
 func VH_C08_Replace(p []int) {
+	vhPreMode = 2
 	pre := vhArbitraryStack(p[0], p[1], true, vhOptMask&^ronly, 2, 2)
 	snap := vhSnapCfg(pre.cfg)
 	i := nondetInt()
@@ -82,6 +84,7 @@ func VH_C08_Replace(p []int) {
 
 // p: n, slack
 func VH_C08_Swap(p []int) {
+	vhPreMode = 2
 	pre := vhArbitraryStack(p[0], p[1], true, vhOptMask&^ronly, 2, 2)
 	snap := vhSnapCfg(pre.cfg)
 	i, j := nondetInt(), nondetInt()
@@ -107,6 +110,7 @@ func VH_C08_Swap(p []int) {
 
 // p: n, slack
 func VH_C08_Remove(p []int) {
+	vhPreMode = 2
 	pre := vhArbitraryStack(p[0], p[1], true, vhOptMask&^ronly, 2, 2)
 	snap := vhSnapCfg(pre.cfg)
 	i := nondetInt()
@@ -137,6 +141,7 @@ func VH_C08_Remove(p []int) {
 
 // p: n, slack
 func VH_C08_Insert(p []int) {
+	vhPreMode = 2
 	pre := vhArbitraryStack(p[0], p[1], true, vhOptMask&^ronly, 2, 2)
 	snap := vhSnapCfg(pre.cfg)
 	left := nondetInt()
@@ -166,6 +171,7 @@ func VH_C08_Insert(p []int) {
 
 // p: n, slack, pathlen — Traverse on a flat stack with arbitrary indices.
 func VH_C08_Traverse(p []int) {
+	vhPreMode = 2
 	pre := vhArbitraryStack(p[0], p[1], true, vhOptMask, 2, 2)
 	snap := vhSnapCfg(pre.cfg)
 	idx := make([]int, p[2])
@@ -201,6 +207,7 @@ func VH_C08_Traverse(p []int) {
 
 // p: n, slack — Less and Defrag take arbitrary ints and must not panic.
 func VH_C08_LessDefrag(p []int) {
+	vhPreMode = 2
 	pre := vhArbitraryStack(p[0], p[1], true, vhOptMask&^ronly, 2, 2)
 	snap := vhSnapCfg(pre.cfg)
 	i, j := nondetInt(), nondetInt()
